@@ -64,6 +64,15 @@ theorem c14_callbacks_run_outside_the_registry_lock :
     Generated.Callbacks.invokedUnderLock = [] ∧
     0 < Generated.Callbacks.responseInvocationSites ∧ 0 < Generated.Callbacks.resultInvocationSites := by decide
 
+/-- the callbacks waiting for one counter are independent of each other: every invocation of a registered RESPONSE
+    callback is performed by a goroutine of its own (regenerated: a `go` statement on the callback itself, or a spawned
+    function that reaches the invocation outside every loop). This is the `.spawn i` per callback of `Spine.CBR`'s
+    delivery thread — the model's assumption that a callback which does not return delays no other callback is read
+    off the tree under test, not assumed (round 7: one goroutine serving all callbacks of a response in a loop turns
+    this false). -/
+theorem c14_each_response_callback_has_its_own_goroutine :
+    Generated.Callbacks.responseCallbacksOwnGoroutine = true ∧ 0 < Generated.Callbacks.responseInvocationSites := by decide
+
 /-- the member of `Spine.CBR` the tree under test is -/
 def invocationMode (asyncOrUnlocked : Bool) : CBR.Mode := if asyncOrUnlocked then .outsideLock else .inlineUnderLock
 
